@@ -9,6 +9,7 @@ identical first/von/last/jr word lists (so every top-level word appears once, in
 exception other than InvalidNameError; at middleware level an invalid name yields a
 MiddlewareErrorBlock whose ignore_error_block is the untouched entry.
 """
+import os
 import sys
 
 from pysym.engine import Engine
@@ -174,7 +175,7 @@ def task_mw(L, sigma, prefix=""):
 
 
 def conformance():
-    sys.path.insert(0, "/repo")
+    sys.path.insert(0, os.environ.get("VERIF_REPO", "/repo"))
     from tests.middleware_tests import test_names as T
     n = bad = 0
     eng = Engine()
